@@ -615,7 +615,9 @@ class C05(Check):
         "well-formed stream has no ARG0 of sort 'q' either (the theorems carry both as the hypothesis NoReserved)",
         "EP ids pairwise distinct (true unless an ARG0 has the sort '_'): otherwise the driver answers 'unmodelled'",
         "make_ids_unique iterates a Python set when several non-quantifier EPs share an ARG0 (ill-formed input): the "
-        "driver answers 'unmodelled' when that order is observable",
+        "driver answers 'unmodelled' when that order is observable; both 'unmodelled' reasons are counted in the "
+        "evidence (model_comparisons_by_config) split by in-claim / outside-claim, and an 'unmodelled' answer on a "
+        "case inside the claim is reported as a model/implementation disagreement",
         "representative_priority is left at its default",
         "in-place edits never touch ARG0/RSTR (EP ids are fixed by the constructor) and never append an EP: the id index "
         "and the variable map of a structure are built by its constructor only, so the real code raises KeyError even "
@@ -800,15 +802,45 @@ class C05(Check):
         if not isinstance(answer, list) or len(answer) != len(expected):
             return {"expected_from_impl": expected, "model": answer}
         nc = len(case["configs"])
+        claim = [None, None]          # in_claim of the content of phase 0 / 1, computed on demand
+
+        def phase_claim(ph):
+            if claim[ph] is None:
+                mj = case["m"] if ph == 0 else apply_edit_json(case["m"], case["edit"])
+                try:
+                    claim[ph] = bool(in_claim(semgen.mrs_from_json(mj)))
+                except Exception:
+                    claim[ph] = False
+            return claim[ph]
         for k, (e, a) in enumerate(zip(expected, answer)):
             where = {"config": case["configs"][k % nc], "phase": "after the in-place edit" if k >= nc else "first"}
+            self.compared["configs"] = self.compared.get("configs", 0) + 1
             if isinstance(a, dict) and "unmodelled" in a:
+                # the model declines (duplicate EP ids / Python set order observable): only possible
+                # outside the claim; counted per reason, and a disagreement when the case is in the claim
+                inc = phase_claim(k // nc)
+                key = "unmodelled:%s:%s" % (a["unmodelled"], "in-claim" if inc else "outside-claim")
+                self.compared[key] = self.compared.get(key, 0) + 1
+                if inc:
+                    return dict(where, note="the model answers 'unmodelled' on a case inside the claim", model=a)
                 if "ok" in e and canon(a.get("ids")) != canon(e["ok"]["ids"]):
                     return dict(where, expected_ids=e["ok"]["ids"], model=a)
                 continue
+            key = "modelled:" + ("in-claim" if phase_claim(k // nc) else "outside-claim")
+            self.compared[key] = self.compared.get(key, 0) + 1
             if canon(e) != canon(a):
                 return dict(where, expected_from_impl=e, model=a)
         return None
+
+    compared = {}
+
+    def setup(self):
+        self.compared = {}
+
+    def extra_evidence(self):
+        """how many (case, configuration, phase) answers of the model were compared in full and how many the
+        model declined ('unmodelled'), per reason, split by whether the content is inside the claim"""
+        return {"model_comparisons_by_config": dict(sorted(self.compared.items()))}
 
     # ---- direct oracle
     def oracle(self, case, res):
